@@ -211,11 +211,13 @@ theorem reallocMerge_live {s s' : Xma} {o n : Nat} (hr : reallocMerge s o n = .o
 /-! ### operation-level statements -/
 
 theorem wf_live_facts {s : Xma} (h : WF s) {x : Nat × Nat × List Nat} (hx : x ∈ liveOffs 0 s.blks) :
-    x.1 % ALIGN = 0 ∧ x.2.1 % ALIGN = 0 ∧ MINALLOC ≤ x.2.1 ∧ x.1 + HDR + x.2.1 ≤ s.zone := by
-  have a := live_aligned h.chain (by simp) hx
+    x.1 % ALIGN = 0 ∧ MINALLOC ≤ x.2.1 ∧ x.1 + HDR + x.2.1 ≤ s.zone ∧
+    ((x.1 + HDR + x.2.1) % ALIGN = 0 ∨ x.1 + HDR + x.2.1 = s.zone) := by
+  have a := live_aligned h.chain hx
   have b := liveOffs_bounds hx
-  rw [h.tile] at b
-  exact ⟨a.1, a.2.1, a.2.2, by omega⟩
+  have e := live_end h.chain hx
+  rw [h.tile] at b e
+  exact ⟨a.1, a.2, by omega, by simpa using e⟩
 
 theorem alloc_spec {s s' : Xma} {n : Nat} {r : Option Nat} (h : WF s) (hz : s.zone < WORD) (hn : n < WORD)
     (ha : alloc s n = .ok (r, s')) :
@@ -239,9 +241,9 @@ theorem alloc_spec {s s' : Xma} {n : Nat} {r : Option Nat} (h : WF s) (hz : s.zo
     refine ⟨o, sz, rfl, ?_, m1, m2⟩
     rcases hsize with hle | ⟨hc1, hc2⟩
     · omega
-    · have : sz = roundReq n := by
-        apply fixed_class_exact hf.2.1 (by have := hf.2.2.1; simp only [ALIGN, MINALLOC] at *; omega)
-          (by have := hf.2.2.2; simp only at this; rw [hzone] at this; omega) hr.1
+    · have : roundReq n ≤ sz := by
+        apply fixed_class_ge (by have := hf.2.1; simp only [ALIGN, MINALLOC] at *; omega)
+          (by have := hf.2.2.1; simp only at this; rw [hzone] at this; omega) hr.1
           (by simp only [ALIGN, MINALLOC] at *; omega)
           (by unfold roundReq; simp only [WORD, BITS, ALIGN]; omega) hc1 hc2
       omega
@@ -483,7 +485,7 @@ theorem realloc_total {s : Xma} {o sz n : Nat} {d : List Nat} (h : WF s) (hl : (
 /-! ### everything freed -/
 
 /-- a chain without live blocks and without two adjacent free blocks has at most one block -/
-theorem all_free_single {ps : Nat} {pf : Bool} {l : List Blk} (h : ChainOK ps pf l) (hl : ∀ c, liveOffs c l = []) :
+theorem all_free_single {c0 ps : Nat} {pf : Bool} {l : List Blk} (h : ChainOK c0 ps pf l) (hl : ∀ c, liveOffs c l = []) :
     l.length ≤ 1 := by
   cases l with
   | nil => simp
@@ -564,19 +566,16 @@ theorem liveOffs_mem_iff {c o sz : Nat} {d : List Nat} {l : List Blk} :
         right
         exact ih.2 ⟨p, b, q, rfl, by omega, e3, e4, e5⟩
 
-theorem chainOK_sizes {ps : Nat} {pf : Bool} {l : List Blk} (h : ChainOK ps pf l) :
-    ∀ b ∈ l, b.size % ALIGN = 0 ∧ MINALLOC ≤ b.size := by
-  induction l generalizing ps pf with
-  | nil => simp
-  | cons a l ih =>
-    simp only [ChainOK] at h
-    intro b hb
-    simp only [List.mem_cons] at hb
-    rcases hb with rfl | hb
-    · exact ⟨h.2.2.1, h.2.2.2.1⟩
-    · exact ih h.2.2.2.2 b hb
+theorem chainOK_sizes {c ps : Nat} {pf : Bool} {l : List Blk} (h : ChainOK c ps pf l) :
+    ∀ p b q, l = p ++ b :: q → (c + total p) % ALIGN = 0 ∧ MINALLOC ≤ b.size := by
+  intro p b q e
+  subst e
+  rw [chainOK_append] at h
+  have := h.2
+  simp only [ChainOK] at this
+  exact ⟨this.2.2.1, this.2.2.2.1⟩
 
-theorem chainOK_adjacent {ps : Nat} {pf : Bool} {l p q : List Blk} {a b : Blk} (h : ChainOK ps pf l)
+theorem chainOK_adjacent {c ps : Nat} {pf : Bool} {l p q : List Blk} {a b : Blk} (h : ChainOK c ps pf l)
     (e : l = p ++ a :: b :: q) : b.prev = a.size ∧ ¬(a.free = true ∧ b.free = true) := by
   subst e
   rw [chainOK_append] at h
@@ -639,8 +638,61 @@ theorem realloc_zone {s s' : Xma} {o n : Nat} {r : Option Nat} (hr : realloc s o
           obtain ⟨_, rfl⟩ := hr
           rw [free_zone hfr, setData_zone, alloc_zone ha]
 
+theorem calloc_zone {s s' : Xma} {n : Nat} {r : Option Nat} (hc : calloc s n = .ok (r, s')) : s'.zone = s.zone := by
+  unfold calloc at hc
+  split at hc
+  · simp at hc
+  · rename_i s1 ha
+    simp only [Except.ok.injEq, Prod.mk.injEq] at hc
+    obtain ⟨_, rfl⟩ := hc
+    exact alloc_zone ha
+  · rename_i o s1 ha
+    simp only [Except.ok.injEq, Prod.mk.injEq] at hc
+    obtain ⟨_, rfl⟩ := hc
+    rw [setData_zone, alloc_zone ha]
+
+/-- hawk_xma_calloc: as hawk_xma_alloc, and the `n` requested bytes of the fresh block are zero -/
+theorem calloc_spec {s s' : Xma} {n : Nat} {r : Option Nat} (h : WF s) (hz : s.zone < WORD) (hn : n < WORD)
+    (hc : calloc s n = .ok (r, s')) :
+    (r = none ∧ s' = s) ∨ ∃ o sz, r = some o ∧ n ≤ sz ∧
+      (∀ x, x ∈ liveOffs 0 s'.blks ↔ x ∈ liveOffs 0 s.blks ∨ x = (o, sz, List.replicate n 0)) ∧
+      (∀ x ∈ liveOffs 0 s.blks, x.1 ≠ o) := by
+  unfold calloc at hc
+  split at hc
+  · simp at hc
+  · rename_i s1 ha
+    simp only [Except.ok.injEq, Prod.mk.injEq] at hc
+    obtain ⟨rfl, rfl⟩ := hc
+    rcases alloc_cases ha with ⟨_, e⟩ | ⟨o2, ho2, _⟩
+    · exact Or.inl ⟨rfl, e⟩
+    · simp at ho2
+  · rename_i o s1 ha
+    simp only [Except.ok.injEq, Prod.mk.injEq] at hc
+    obtain ⟨rfl, rfl⟩ := hc
+    rcases alloc_spec h hz hn ha with ⟨hnone, _⟩ | ⟨o2, sz, ho2, hle, m1, m2⟩
+    · simp at hnone
+    · simp only [Option.some.injEq] at ho2; subst ho2
+      have hl2 : (o, sz, ([] : List Nat)) ∈ liveOffs 0 s1.blks := (m1 _).2 (Or.inr rfl)
+      obtain ⟨⟨rp2, b2, q2⟩, hf2⟩ := findBlk_live_exists s1.blks 0 [] hl2
+      obtain ⟨hb2f, e3, e4⟩ := findBlk_live hf2 hl2
+      have hs2 := (liveStep_repl (setData_live (d := List.replicate n 0) hf2 hb2f)).2
+      rw [e3] at hs2
+      refine Or.inr ⟨o, sz, rfl, hle, ?_, m2⟩
+      intro x
+      rw [hs2, m1]
+      constructor
+      · rintro (⟨(hx | hx), hne⟩ | hx)
+        · exact Or.inl hx
+        · subst hx; exact absurd rfl hne
+        · exact Or.inr hx
+      · rintro (hx | hx)
+        · exact Or.inl ⟨Or.inl hx, m2 x hx⟩
+        · exact Or.inr hx
+
 theorem step_zone (s : Xma) (op : Op) : (step s op).zone = s.zone := by
   cases op with
+  | calloc n => simp only [step]; split; · rename_i ha; exact calloc_zone ha
+                · rfl
   | alloc n => simp only [step]; split; · rename_i ha; exact alloc_zone ha
                · rfl
   | realloc o n => simp only [step]; split; · rename_i ha; exact realloc_zone ha
